@@ -768,6 +768,78 @@ def solver_group():
     return g
 
 
+def simple_fn(path, name, params, aliases=None):
+    """symbolically execute a straight-line function whose parameters are scalars;
+    params: dict python-name -> E.  Returns the Exec (probe "return" for the result)."""
+    fn = load_fn(path, name)
+    return Exec(fn, params, aliases or {}).run()
+
+
+def ret_component(ex, k=None):
+    v = ex.probe("return")
+    if k is None:
+        return v
+    if v.k != "tuple" or k >= len(v.a):
+        raise TranslateError("return value is not a tuple with component %d" % k)
+    return v.a[k]
+
+
+def misc_group():
+    g = Group("MiscK", "src/bldfm/utils.py, config_parser.py, plotting/_geo.py")
+    # compute_wind_fields
+    def wind(k):
+        def f():
+            ex = simple_fn(os.path.join(REPO_SRC, "utils.py"), "compute_wind_fields",
+                           dict(u_rot=var("s", "R"), wind_dir=var("wd", "R")))
+            return ret_component(ex, k)
+        return f
+    g.kernel("windU", [("s", "R"), ("wd", "R")], wind(0))
+    g.kernel("windV", [("s", "R"), ("wd", "R")], wind(1))
+
+    def earth_radius():
+        tree = ast.parse(open(os.path.join(REPO_SRC, "config_parser.py")).read())
+        for n in tree.body:
+            if isinstance(n, ast.Assign) and ast.unparse(n.targets[0]) == "_EARTH_RADIUS":
+                return num(float(ast.literal_eval(n.value)))
+        raise TranslateError("_EARTH_RADIUS not found")
+
+    def ll(k):
+        def f():
+            ex = simple_fn(os.path.join(REPO_SRC, "config_parser.py"), "latlon_to_xy",
+                           dict(lat=var("lat", "R"), lon=var("lon", "R"), ref_lat=var("refLat", "R"), ref_lon=var("refLon", "R"),
+                                _EARTH_RADIUS=earth_radius()))
+            return ret_component(ex, k)
+        return f
+    P4 = [("lat", "R"), ("lon", "R"), ("refLat", "R"), ("refLon", "R")]
+    g.kernel("ll2x", P4, ll(0))
+    g.kernel("ll2y", P4, ll(1))
+
+    def xy(k):
+        def f():
+            ex = simple_fn(os.path.join(REPO_SRC, "plotting", "_geo.py"), "xy_to_latlon",
+                           dict(x=var("x", "R"), y=var("y", "R"), ref_lat=var("refLat", "R"), ref_lon=var("refLon", "R")))
+            return ret_component(ex, k)
+        return f
+    Q4 = [("x", "R"), ("y", "R"), ("refLat", "R"), ("refLon", "R")]
+    g.kernel("xy2lat", Q4, xy(0))
+    g.kernel("xy2lon", Q4, xy(1))
+
+    # TowerConfig.compute_local_xy forwards (lat, lon, ref_lat, ref_lon) in this order
+    try:
+        tree = ast.parse(open(os.path.join(REPO_SRC, "config_parser.py")).read())
+        call = None
+        for n in ast.walk(tree):
+            if isinstance(n, ast.FunctionDef) and n.name == "compute_local_xy":
+                for s_ in n.body:
+                    if isinstance(s_, ast.Assign):
+                        call = (ast.unparse(s_.targets[0]), ast.unparse(s_.value))
+        g.report["_static"] = {"compute_local_xy": call}
+    except Exception as e:  # noqa: BLE001
+        g.report["_static"] = "FAILED: %r" % (e,)
+    g.write()
+    return g
+
+
 def rename(e, m):
     if not isinstance(e, E):
         raise TranslateError(getattr(e, "why", "not an expression"))
@@ -793,7 +865,7 @@ def refreeze(sol, sol_err, target, frozen, path_has=(), extra_aliases=None):
 def main():
     os.makedirs(OUT, exist_ok=True)
     report = {}
-    groups = [solver_group]
+    groups = [solver_group, misc_group]
     for mk in groups:
         try:
             g = mk()
